@@ -42,7 +42,7 @@ func VerifBlobMemoryCacheStep() {
 			n := verif.Len("outstanding_len", 0, verif.Bound("blob_len", 1, 2))
 			r = verifReservation{uint64(n), n}
 		}
-		verif.Assume(r.size <= ^uint64(0)-g.total)
+		verif.Assume(r.size <= ^uint64(0)-g.total) // well-formed pre-state: the sum below is the true sum
 		g.total += r.size
 		g.reserved = append(g.reserved, r)
 	}
